@@ -268,7 +268,14 @@ def run(ctx: Ctx) -> None:
                         break
                 if bad_item is not None:
                     break
-            if dropped is not None:
+            empty_args = len(n.args) > 1 and isinstance(n.args[1], (ast.List, ast.Tuple)) and not n.args[1].elts
+            if empty_args:
+                rep.bad("C13.R4", g.qname, "the binder is given the arguments of the call being analysed", g.loc(n), [
+                    f"{g.loc(n)}: `{unparse(n, 70)}` binds the call as if it had no argument: every parameter that has a default is keyed by that default, and when all "
+                    "of them have one the call-site context is not used either",
+                    "`def helper(x=3): return dds.keep('/p', g, x)`: the evaluations of `helper(5)` and of `helper(6)` give the inner keep one key: the second returns the "
+                    "result of the first (10 instead of 12)"], stmt_key(n) + "noargs", what="a plain call seen in source is bound without its arguments: its defaults stand for the values passed")
+            elif dropped is not None:
                 rep.bad("C13.R4", g.qname, "every argument node of the call reaches the binder (none is filtered out)", g.loc(n), dropped.chain() + [
                     f"`{unparse(dropped.node, 70)}` removes argument nodes before the binding: a `*xs` argument that used to make the binding unknown (call keyed by its "
                     "call-site context) disappears, the parameters it would have bound take their defaults, and `keep(p, f, *xs)` is keyed as `f()`"],
